@@ -55,6 +55,11 @@ def loop_template(tape):
 class Target(object):
     def __init__(self, ctx, name, force=None, text=None):
         f = {"only_sync": True, "park": True, "probe": True, "asyncmgr": False, "call": True}
+        if text is None and ctx.tape.choose(3) == 2:
+            # some of the thread's frames belong to coroutines / generators it is driving
+            f["drive"] = True
+            del f["asyncmgr"]
+            ctx.stat("threads_driving_generator_likes")
         f.update(force or {})
         self.b = driver.build(ctx, f, "sync", text=text)
         self.W = self.b.W
